@@ -3,4 +3,5 @@ import KcpVerif.Model.Ring
 import KcpVerif.Props.C20
 import KcpVerif.Model.Sched
 import KcpVerif.Lemmas.Sched
+import KcpVerif.Lemmas.SchedSource
 import KcpVerif.Props.C17
